@@ -89,7 +89,7 @@ def bracketed(trace, atom):
 
 # ---------------------------------------------------------------- debump_residue: moves atoms only through set_dihedral_angle
 contract(
-    "pdb2pqr.debump:Debump.debump_residue", ["C04", "C05"],
+    "pdb2pqr.debump:Debump.debump_residue", ["C04", "C05", "C14"],
     params={"self": Obj("pdb2pqr.debump:Debump", cells=Obj("pdb2pqr.cells:Cells")), "residue": RESIDUE(),
             "conflict_names": Items(Const("CG"))},
     requires=[],
